@@ -3,8 +3,8 @@
   Coffman, Garey, Johnson 1978).  The unconditional theorem for every `k` is still **open**; this file extends the
   unconditional ranges:
 
-  * `multifit_ratio_122_k10`: **`61/50 + 2^−it` for `k ≤ 10`** (`ffdFits_122_k10`; from `irred_nine_false`,
-    `irred_ten_false`; also `multifit_ratio_122_k9`, `ffdFits_122_k9`);
+  * `multifit_ratio_122_k11`: **`61/50 + 2^−it` for `k ≤ 11`** (`ffdFits_122_k11`; from `irred_nine_false`,
+    `irred_ten_false`, `irred_eleven_false`; also `multifit_ratio_122_k10`, `multifit_ratio_122_k9`);
   * `multifit_ratio_11_9_k11`: `11/9 + 2^−it` for `k ≤ 11` (also `multifit_ratio_11_9_k10`);
   * `multifit_ratio_16_13_k16`: `16/13 + 2^−it` for `k ≤ 16` (also `multifit_ratio_16_13_k14`);
   * `multifit_ratio_6_5_k6`: `6/5 + 2^−it` for `k ≤ 6`;
@@ -23,8 +23,9 @@
   are packed.
 
   For `61/50` and `k = 10` (`irred_ten_false`) a bin of three may be followed by a larger item; see the section
-  "Ten bins".  What fails for `k = 11`: for `0.242·T < a ≤ 0.2444·T` the capacity may reach `5a`, so bins of the
-  packing may hold five items.
+  "Ten bins".  For `k = 11` (`irred_eleven_false`) bins of five items are excluded by the window
+  instead of the capacity.  What fails for `k = 12`: an `omega` step of the heavy-bin analysis (not investigated
+  further; the window for two bins no longer excludes two heavy bins from `k = 13` on).
 -/
 import Mathlib.Tactic.Linarith
 import Mathlib.Tactic.Ring
@@ -405,6 +406,383 @@ theorem irred_ten_false {v : α → Nat} {T B : Nat} (hTB : T ≤ B) (hB : 61 * 
   -- the bins of the packing hold 2, 3 or 4 items
   have h24 : ∀ l ∈ LL, 2 ≤ l.length ∧ l.length ≤ 4 := fun l hl =>
     ⟨tight_two hTB ht.toTight l hl, bin_le_four (by omega) (hmin l hl) (hcap l hl)⟩
+  have hcLL := count_two_four LL h24
+  rw [hce.len] at hcLL
+  -- the schedule: bins of 3 or 4 values
+  obtain ⟨Q, hQk, hQp, hQ⟩ := packable_partition hce.pack
+  have hQ3 := irred_opt_bins hTB h Q hQk hQp hQ
+  have hge : ∀ O ∈ Q, ∀ u ∈ O, v a ≤ u := by
+    intro O hO u hu
+    obtain ⟨p, hp, rfl⟩ := List.mem_map.1 (hQp.mem_iff.1 (List.mem_flatten.2 ⟨O, hO, hu⟩))
+    rcases List.mem_append.1 hp with hp | hp
+    · exact hce.amin p hp
+    · simp only [List.mem_singleton] at hp; subst hp; exact Nat.le_refl _
+  have hQ34 : ∀ O ∈ Q, O.length = 3 ∨ O.length = 4 := by
+    intro O hO
+    have h1 := hQ3 O hO
+    have h2 := items_per_bin (c := 4) (hge O hO) (by omega) (hQ O hO)
+    omega
+  have hcQ := count_three_four Q hQ34
+  rw [hQk] at hcQ
+  have hlenQ := hQp.length_eq
+  simp only [List.length_map, List.length_append, List.length_cons, List.length_nil] at hlenQ
+  -- tiny values against big values in the schedule
+  have hoptbin : ∀ O ∈ Q, 2 * O.countP (bigV T B (v a)) + 4 * (if O.length = 4 then 1 else 0) ≤
+      O.countP (tinyV T B (v a)) := by
+    intro O hO
+    have hs := hQ O hO
+    have hg := hge O hO
+    rcases hQ34 O hO with h3 | h4
+    · match O, h3, hs, hg with
+      | [x, y, z], _, hs, hg =>
+        have := hg x (by simp)
+        have := hg y (by simp)
+        have := hg z (by simp)
+        simp only [sumL] at hs
+        simp only [List.countP_cons, List.countP_nil, bigV, tinyV, decide_eq_true_eq, List.length_cons,
+          List.length_nil]
+        split_ifs <;> omega
+    · match O, h4, hs, hg with
+      | [x, y, z, u], _, hs, hg =>
+        have := hg x (by simp)
+        have := hg y (by simp)
+        have := hg z (by simp)
+        have := hg u (by simp)
+        simp only [sumL] at hs
+        have tx : tinyV T B (v a) x = true := by simp only [tinyV, decide_eq_true_eq]; omega
+        have ty : tinyV T B (v a) y = true := by simp only [tinyV, decide_eq_true_eq]; omega
+        have tz : tinyV T B (v a) z = true := by simp only [tinyV, decide_eq_true_eq]; omega
+        have tu : tinyV T B (v a) u = true := by simp only [tinyV, decide_eq_true_eq]; omega
+        have bx : bigV T B (v a) x = false := by simp only [bigV, decide_eq_false_iff_not]; omega
+        have by' : bigV T B (v a) y = false := by simp only [bigV, decide_eq_false_iff_not]; omega
+        have bz : bigV T B (v a) z = false := by simp only [bigV, decide_eq_false_iff_not]; omega
+        have bu : bigV T B (v a) u = false := by simp only [bigV, decide_eq_false_iff_not]; omega
+        simp [tx, ty, tz, tu, bx, by', bz, bu]
+  have hopt := countP_flatten_opt (bigV T B (v a)) (tinyV T B (v a)) Q hoptbin
+  -- big items in the packing
+  have hbigLL := countP_flatten_ge_two (fun x => bigV T B (v a) (v x)) LL (by
+    intro l hl h2 p hp
+    match l, h2, hl, hp with
+    | [x, y], _, hl, hp =>
+      obtain ⟨bx, by'⟩ := tight_pair_big ht.toTight hl
+      simp only [List.mem_cons, List.not_mem_nil, or_false] at hp
+      simp only [bigV, decide_eq_true_eq]
+      rcases hp with rfl | rfl
+      · exact bx
+      · exact by')
+  have hbigAll : LL.flatten.countP (fun x => bigV T B (v a) (v x)) ≤ Q.flatten.countP (bigV T B (v a)) := by
+    rw [hQp.countP_eq, List.map_append, List.countP_append, List.countP_map]
+    exact Nat.le_add_right _ _
+  have htinyAll : Q.flatten.countP (tinyV T B (v a)) ≤
+      LL.flatten.countP (fun x => tinyV T B (v a) (v x)) + 1 := by
+    rw [hQp.countP_eq, List.map_append, List.countP_append, List.countP_map]
+    have e2' : ([a].map v).countP (tinyV T B (v a)) ≤ 1 := by
+      have := List.countP_le_length (p := tinyV T B (v a)) (l := [a].map v)
+      simpa using this
+    have e3' : LL.flatten.countP (tinyV T B (v a) ∘ v) =
+        LL.flatten.countP (fun x => tinyV T B (v a) (v x)) := rfl
+    omega
+  -- a bin of three tiny items is filled too low
+  have hbeta : ∀ x y z : α, [x, y, z] ∈ LL →
+      ¬ (v x + B + 2 * v a < 2 * T ∧ v y + B + 2 * v a < 2 * T ∧ v z + B + 2 * v a < 2 * T) := by
+    intro x y z hl ⟨t1, t2, t3⟩
+    have hnf := hce.nofit _ hl
+    simp only [binSum, List.map_cons, List.map_nil, sumL] at hnf
+    omega
+  -- an item after a bin of three is at most its smallest item, or the bin is heavy
+  have halpha2 : ∀ (j : Nat) (hh s w : α), LL[j]? = some [hh, s, w] → v s ≤ v hh ∧ v w ≤ v s ∧
+      ∀ (i : Nat) (l : List α) (q : α), j < i → LL[i]? = some l → q ∈ l →
+        v q ≤ v w ∨ (B < v hh + v s + v q ∧ v q ≤ v s) := by
+    intro j hh s w hl1
+    have hl1mem := List.mem_of_getElem? hl1
+    have hsort := ht.strong.sorted _ hl1mem
+    have hs1 : v s ≤ v hh := (List.pairwise_cons.1 hsort).1 s (by simp)
+    have hs2 : v w ≤ v s := (List.pairwise_cons.1 (List.pairwise_cons.1 hsort).2).1 w (by simp)
+    refine ⟨hs1, hs2, ?_⟩
+    intro i l q hij hli hq
+    have hh1 := htop _ hl1mem hh (by simp)
+    have hq1 := htop l (List.mem_of_getElem? hli) q hq
+    by_cases hlt : v q ≤ v w
+    · exact Or.inl hlt
+    · right
+      have hr := ht.strong.rule j i [hh, s, w] l q hij hl1 hli hq
+      by_cases c1 : v q ≤ v hh <;> by_cases c2 : v q ≤ v s <;>
+        simp [c1, c2, hlt, binSum, sumL] at hr <;> omega
+  -- at most `4·#(bins of four) + 2` tiny items are packed
+  have hpacked : LL.flatten.countP (fun x => tinyV T B (v a) (v x)) ≤
+      4 * LL.countP (fun l => decide (l.length = 4)) + 2 := by
+    -- the bound for a bin that is not the first bin of three with a tiny item
+    have hfour : ∀ l : List α, l.length = 4 →
+        l.countP (fun x => tinyV T B (v a) (v x)) ≤ 4 * (if l.length = 4 then 1 else 0) := by
+      intro l h4
+      have := List.countP_le_length (p := fun x => tinyV T B (v a) (v x)) (l := l)
+      rw [if_pos h4]; omega
+    have htwo : ∀ l ∈ LL, l.length = 2 →
+        l.countP (fun x => tinyV T B (v a) (v x)) ≤ 4 * (if l.length = 4 then 1 else 0) := by
+      intro l hl h2
+      have : l.countP (fun x => tinyV T B (v a) (v x)) = 0 := by
+        rw [List.countP_eq_zero]
+        intro p hp
+        match l, h2, hl, hp with
+        | [x, y], _, hl, hp =>
+          obtain ⟨bx, by'⟩ := tight_pair_big ht.toTight hl
+          simp only [List.mem_cons, List.not_mem_nil, or_false] at hp
+          simp only [tinyV, decide_eq_true_eq]
+          rcases hp with rfl | rfl <;> omega
+      omega
+    by_cases hex : ∃ (j : Nat) (l : List α) (p : α), LL[j]? = some l ∧ l.length = 3 ∧ p ∈ l ∧
+        v p + B + 2 * v a < 2 * T
+    · obtain ⟨j0, hj0⟩ := hex
+      obtain ⟨j, ⟨l1, p, hl1, hl1len, hpl, hpt⟩, hleast⟩ :=
+        exists_least (P := fun (j : Nat) => ∃ (l : List α) (p : α), LL[j]? = some l ∧ l.length = 3 ∧ p ∈ l ∧
+          v p + B + 2 * v a < 2 * T) j0 hj0
+      match l1, hl1len, hl1, hpl with
+      | [hh, s, w], _, hl1, hpl =>
+      obtain ⟨hs1, hs2, hal2⟩ := halpha2 j hh s w hl1
+      have hwt : v w + B + 2 * v a < 2 * T := by
+        simp only [List.mem_cons, List.not_mem_nil, or_false] at hpl
+        rcases hpl with rfl | rfl | rfl <;> omega
+      have hj : j < LL.length := (List.getElem?_eq_some_iff.1 hl1).1
+      have hLj : LL[j] = [hh, s, w] := (List.getElem?_eq_some_iff.1 hl1).2
+      have hjmem := List.mem_of_getElem? hl1
+      have hwinj := hwin _ hjmem
+      simp only [binSum, List.map_cons, List.map_nil, sumL] at hwinj
+      have hwa := hmin _ hjmem w (by simp)
+      have hh1 := htop _ hjmem hh (by simp)
+      have c3 : [hh, s, w].countP (fun x => tinyV T B (v a) (v x)) ≤ 2 := by
+        apply Nat.le_of_not_lt
+        intro h3'
+        have hle := List.countP_le_length (p := fun x => tinyV T B (v a) (v x)) (l := [hh, s, w])
+        simp only [List.length_cons, List.length_nil] at hle
+        have heq : [hh, s, w].countP (fun x => tinyV T B (v a) (v x)) = [hh, s, w].length := by
+          simp only [List.length_cons, List.length_nil]; omega
+        have hall := List.countP_eq_length.1 heq
+        have t1 := hall hh (by simp)
+        have t2 := hall s (by simp)
+        have t3 := hall w (by simp)
+        simp only [tinyV, decide_eq_true_eq] at t1 t2 t3
+        exact hbeta hh s w hjmem ⟨t1, t2, t3⟩
+      -- the bound for the bins that are neither `j` nor (later) `j'`
+      have hbnd : ∀ (jj : Nat), j ≤ jj →
+          (∀ (i : Nat) (l : List α), j < i → i < jj → LL[i]? = some l → l.length = 3 →
+            ∀ q ∈ l, ¬ (v q + B + 2 * v a < 2 * T)) →
+          (∀ (i : Nat) (l : List α), jj < i → LL[i]? = some l → l.length = 3 →
+            l.countP (fun x => tinyV T B (v a) (v x)) = 0) →
+          ∀ (i0 : Nat) (l : List α), LL[i0]? = some l → i0 ≠ j → i0 ≠ jj →
+            l.countP (fun x => tinyV T B (v a) (v x)) ≤ 4 * (if l.length = 4 then 1 else 0) := by
+        intro jj hjj hmid hafter i0 l hli hne1 hne2
+        have hlm := List.mem_of_getElem? hli
+        have hlen := h24 l hlm
+        have hc : l.length = 2 ∨ l.length = 3 ∨ l.length = 4 := by omega
+        rcases hc with h2 | h3 | h4
+        · exact htwo l hlm h2
+        · have : l.countP (fun x => tinyV T B (v a) (v x)) = 0 := by
+            rcases Nat.lt_or_ge i0 j with hlt | hge'
+            · rw [List.countP_eq_zero]
+              intro q hq
+              simp only [tinyV, decide_eq_true_eq]
+              intro hqt
+              exact hleast i0 hlt ⟨l, q, hli, h3, hq, hqt⟩
+            · rcases Nat.lt_or_ge i0 jj with hlt2 | hge2
+              · rw [List.countP_eq_zero]
+                intro q hq
+                simp only [tinyV, decide_eq_true_eq]
+                exact hmid i0 l (by omega) hlt2 hli h3 q hq
+              · exact hafter i0 l (by omega) hli h3
+          omega
+        · exact hfour l h4
+      by_cases hA : ∀ (i : Nat) (l : List α) (q : α), j < i → LL[i]? = some l → q ∈ l → v q ≤ v w
+      · -- everything after bin `j` is tiny
+        have hother : ∀ l ∈ LL.eraseIdx j,
+            l.countP (fun x => tinyV T B (v a) (v x)) ≤ 4 * (if l.length = 4 then 1 else 0) := by
+          intro l hl
+          obtain ⟨i, hij, hli⟩ := List.mem_eraseIdx_iff_getElem?.1 hl
+          refine hbnd j (Nat.le_refl _) (fun i l h1 h2 => by omega) ?_ i l hli hij hij
+          intro i l hji hli h3
+          exfalso
+          have hlm := List.mem_of_getElem? hli
+          match l, h3, hli, hlm with
+          | [x, y, z], _, hli, hlm =>
+            have := hA i _ x hji hli (by simp)
+            have := hA i _ y hji hli (by simp)
+            have := hA i _ z hji hli (by simp)
+            exact hbeta x y z hlm ⟨by omega, by omega, by omega⟩
+        have p1 := flatten_perm_getElem_eraseIdx LL j hj
+        rw [p1.countP_eq, List.countP_append, hLj]
+        have c1 := countP_flatten_le_four (fun x => tinyV T B (v a) (v x)) (LL.eraseIdx j) hother
+        have c2 : (LL.eraseIdx j).countP (fun l => decide (l.length = 4)) ≤
+            LL.countP (fun l => decide (l.length = 4)) := (List.eraseIdx_sublist LL j).countP_le
+        omega
+      · -- bin `j` is heavy: a later item is larger than `w`
+        have hviol : ∃ q : α, B < v hh + v s + v q ∧ v q ≤ v s := by
+          apply Classical.byContradiction
+          intro hno
+          apply hA
+          intro i l q hji hli hq
+          rcases hal2 i l q hji hli hq with h1 | h1
+          · exact h1
+          · exact absurd ⟨q, h1⟩ hno
+        obtain ⟨q0, hq01, hq02⟩ := hviol
+        have c3' : [hh, s, w].countP (fun x => tinyV T B (v a) (v x)) ≤ 1 := by
+          have t1 : tinyV T B (v a) (v hh) = false := by
+            simp only [tinyV, decide_eq_false_iff_not]; omega
+          have t2 : tinyV T B (v a) (v s) = false := by
+            simp only [tinyV, decide_eq_false_iff_not]; omega
+          have e : [hh, s, w].countP (fun x => tinyV T B (v a) (v x)) =
+              [w].countP (fun x => tinyV T B (v a) (v x)) := by
+            simp [List.countP_cons, t1, t2]
+          have := List.countP_le_length (p := fun x => tinyV T B (v a) (v x)) (l := [w])
+          simp only [List.length_cons, List.length_nil] at this
+          omega
+        by_cases hex2 : ∃ (j' : Nat) (l : List α) (p : α), j < j' ∧ LL[j']? = some l ∧ l.length = 3 ∧ p ∈ l ∧
+            v p + B + 2 * v a < 2 * T
+        · obtain ⟨j0', hj0'⟩ := hex2
+          obtain ⟨j', ⟨l2, p2, hjj', hl2, hl2len, hp2l, hp2t⟩, hleast2⟩ :=
+            exists_least (P := fun (j' : Nat) => ∃ (l : List α) (p : α), j < j' ∧ LL[j']? = some l ∧
+              l.length = 3 ∧ p ∈ l ∧ v p + B + 2 * v a < 2 * T) j0' hj0'
+          match l2, hl2len, hl2, hp2l with
+          | [x, y, t], _, hl2, hp2l =>
+          obtain ⟨hx1, hx2, hal2'⟩ := halpha2 j' x y t hl2
+          have htt : v t + B + 2 * v a < 2 * T := by
+            simp only [List.mem_cons, List.not_mem_nil, or_false] at hp2l
+            rcases hp2l with rfl | rfl | rfl <;> omega
+          have hj' : j' < LL.length := (List.getElem?_eq_some_iff.1 hl2).1
+          have hLj' : LL[j'] = [x, y, t] := (List.getElem?_eq_some_iff.1 hl2).2
+          have hl2mem := List.mem_of_getElem? hl2
+          have hwin2 := ce_level_window2 hce hjj' hl1 hl2
+          simp only [binSum, List.map_cons, List.map_nil, sumL] at hwin2
+          have hta := hmin _ hl2mem t (by simp)
+          have hnf2 := hce.nofit _ hl2mem
+          simp only [binSum, List.map_cons, List.map_nil, sumL] at hnf2
+          -- everything after bin `j'` is tiny
+          have hB' : ∀ (i : Nat) (l : List α) (q : α), j' < i → LL[i]? = some l → q ∈ l → v q ≤ v t := by
+            intro i l q hji hli hq
+            rcases hal2' i l q hji hli hq with h1 | ⟨h1, h2⟩
+            · exact h1
+            · exfalso; omega
+          -- `y` is not tiny
+          have hy : ¬ (v y + B + 2 * v a < 2 * T) := by
+            intro hyt
+            rcases hal2 j' _ x hjj' hl2 (by simp) with h1 | ⟨h1, h2⟩
+            · exact hbeta x y t hl2mem ⟨by omega, hyt, htt⟩
+            · omega
+          have c4 : [x, y, t].countP (fun x => tinyV T B (v a) (v x)) ≤ 1 := by
+            have t1 : tinyV T B (v a) (v x) = false := by
+              simp only [tinyV, decide_eq_false_iff_not]; omega
+            have t2 : tinyV T B (v a) (v y) = false := by
+              simp only [tinyV, decide_eq_false_iff_not]; omega
+            have e : [x, y, t].countP (fun x => tinyV T B (v a) (v x)) =
+                [t].countP (fun x => tinyV T B (v a) (v x)) := by
+              simp [List.countP_cons, t1, t2]
+            have := List.countP_le_length (p := fun x => tinyV T B (v a) (v x)) (l := [t])
+            simp only [List.length_cons, List.length_nil] at this
+            omega
+          have hb2 := hbnd j' (by omega)
+            (fun i l h1 h2 hli h3 q hq hqt => hleast2 i h2 ⟨l, q, h1, hli, h3, hq, hqt⟩)
+            (by
+              intro i l hji hli h3
+              exfalso
+              have hlm := List.mem_of_getElem? hli
+              match l, h3, hli, hlm with
+              | [x', y', z'], _, hli, hlm =>
+                have := hB' i _ x' hji hli (by simp)
+                have := hB' i _ y' hji hli (by simp)
+                have := hB' i _ z' hji hli (by simp)
+                exact hbeta x' y' z' hlm ⟨by omega, by omega, by omega⟩)
+          -- split off bin `j'`, then bin `j`
+          have p1 := flatten_perm_getElem_eraseIdx LL j' hj'
+          have hjL' : j < (LL.eraseIdx j').length := by
+            rw [List.length_eraseIdx, if_pos hj']; omega
+          have hL'j : (LL.eraseIdx j')[j]? = some [hh, s, w] := by
+            rw [List.getElem?_eraseIdx, if_pos hjj']; exact hl1
+          have hL'j' : (LL.eraseIdx j')[j] = [hh, s, w] := (List.getElem?_eq_some_iff.1 hL'j).2
+          have p2 := flatten_perm_getElem_eraseIdx (LL.eraseIdx j') j hjL'
+          have hother : ∀ l ∈ (LL.eraseIdx j').eraseIdx j,
+              l.countP (fun x => tinyV T B (v a) (v x)) ≤ 4 * (if l.length = 4 then 1 else 0) := by
+            intro l hl
+            obtain ⟨i, hij, hli⟩ := List.mem_eraseIdx_iff_getElem?.1 hl
+            rw [List.getElem?_eraseIdx] at hli
+            by_cases hi : i < j'
+            · rw [if_pos hi] at hli
+              exact hb2 i l hli hij (by omega)
+            · rw [if_neg hi] at hli
+              exact hb2 (i + 1) l hli (by omega) (by omega)
+          rw [p1.countP_eq, List.countP_append, hLj', p2.countP_eq, List.countP_append, hL'j']
+          have c1 := countP_flatten_le_four (fun x => tinyV T B (v a) (v x)) _ hother
+          have c2 : ((LL.eraseIdx j').eraseIdx j).countP (fun l => decide (l.length = 4)) ≤
+              LL.countP (fun l => decide (l.length = 4)) :=
+            ((List.eraseIdx_sublist (LL.eraseIdx j') j).trans (List.eraseIdx_sublist LL j')).countP_le
+          omega
+        · -- no further bin of three with a tiny item
+          have hother : ∀ l ∈ LL.eraseIdx j,
+              l.countP (fun x => tinyV T B (v a) (v x)) ≤ 4 * (if l.length = 4 then 1 else 0) := by
+            intro l hl
+            obtain ⟨i, hij, hli⟩ := List.mem_eraseIdx_iff_getElem?.1 hl
+            refine hbnd j (Nat.le_refl _) (fun i l h1 h2 => by omega) ?_ i l hli hij hij
+            intro i l hji hli h3
+            rw [List.countP_eq_zero]
+            intro q hq
+            simp only [tinyV, decide_eq_true_eq]
+            intro hqt
+            exact hex2 ⟨i, l, q, hji, hli, h3, hq, hqt⟩
+          have p1 := flatten_perm_getElem_eraseIdx LL j hj
+          rw [p1.countP_eq, List.countP_append, hLj]
+          have c1 := countP_flatten_le_four (fun x => tinyV T B (v a) (v x)) (LL.eraseIdx j) hother
+          have c2 : (LL.eraseIdx j).countP (fun l => decide (l.length = 4)) ≤
+              LL.countP (fun l => decide (l.length = 4)) := (List.eraseIdx_sublist LL j).countP_le
+          omega
+    · have hallb : ∀ l ∈ LL,
+          l.countP (fun x => tinyV T B (v a) (v x)) ≤ 4 * (if l.length = 4 then 1 else 0) := by
+        intro l hl
+        have hlen := h24 l hl
+        have hc : l.length = 2 ∨ l.length = 3 ∨ l.length = 4 := by omega
+        rcases hc with h2 | h3 | h4
+        · exact htwo l hl h2
+        · have : l.countP (fun x => tinyV T B (v a) (v x)) = 0 := by
+            rw [List.countP_eq_zero]
+            intro q hq
+            simp only [tinyV, decide_eq_true_eq]
+            intro hqt
+            obtain ⟨i, hi, rfl⟩ := List.mem_iff_getElem.1 hl
+            exact hex ⟨i, _, q, List.getElem?_eq_getElem hi, h3, hq, hqt⟩
+          omega
+        · exact hfour l h4
+      have := countP_flatten_le_four (fun x => tinyV T B (v a) (v x)) LL hallb
+      omega
+  omega
+
+set_option maxHeartbeats 1600000 in
+/-- **No irreducible counter-example with eleven bins** for a capacity `B > 61/50 · T − 1`.  (Here the capacity
+    may reach `5a`; bins of five items are excluded by the window of the levels.) -/
+theorem irred_eleven_false {v : α → Nat} {T B : Nat} (hTB : T ≤ B) (hB : 61 * T < 50 * (B + 1))
+    {LL : List (List α)} {a : α} (h : Irred v T B 11 LL a) (hcap : ∀ l ∈ LL, binSum v l ≤ B) : False := by
+  have ht := irred_tight hTB h
+  have hce := h.1.toCE
+  have hvol := ce_volume hce
+  have h3a := tight_three_le hTB ht.toTight
+  have haT := hce.item_le
+  have hband := ce_band hTB hce
+  have hwin := fun l (hl : l ∈ LL) => ce_level_window hce hl
+  simp only [Nat.add_one_sub_one] at hwin
+  have hmin : ∀ l ∈ LL, ∀ p ∈ l, v a ≤ v p :=
+    fun l hl p hp => hce.amin p (List.mem_flatten.2 ⟨l, hl, hp⟩)
+  have htop : ∀ l ∈ LL, ∀ p ∈ l, v p + 2 * v a ≤ T :=
+    fun l hl p hp => ht.top p (List.mem_flatten.2 ⟨l, hl, hp⟩)
+  -- the bins of the packing hold 2, 3 or 4 items
+  have _ := hcap
+  have h24 : ∀ l ∈ LL, 2 ≤ l.length ∧ l.length ≤ 4 := by
+    intro l hl
+    refine ⟨tight_two hTB ht.toTight l hl, ?_⟩
+    apply Nat.le_of_not_lt
+    intro h5
+    have h1 := Part.length_mul_le_sumL (l.map v) (v a) 0 (fun y hy => by
+      obtain ⟨p, hp, rfl⟩ := List.mem_map.1 hy
+      have := hmin l hl p hp; omega)
+    have h2 := hwin l hl
+    have h3 : 5 * v a ≤ l.length * v a := Nat.mul_le_mul_right _ h5
+    simp only [List.length_map] at h1
+    have e : binSum v l = sumL (l.map v) := rfl
+    omega
   have hcLL := count_two_four LL h24
   rw [hce.len] at hcLL
   -- the schedule: bins of 3 or 4 values
@@ -1529,6 +1907,29 @@ theorem multifit_ratio_122_k10 {k : Nat} {items : List α} {it : Nat} {b : Bins 
     ((maxL b.sums : Nat) : Rat) ≤ (61 / 50 + 1 / 2 ^ it) * opt :=
   multifit_ratio_of_ffdFits v hk hopt (by norm_num) (ffdFits_122_k10 v hk hk10 hopt (le_refl _)) h
 
+/-- `FfdFits ρ` for every `ρ ≥ 61/50` and at most eleven bins -/
+theorem ffdFits_122_k11 {k : Nat} (hk : 0 < k) (hk11 : k ≤ 11) {items : List α} {opt : Int}
+    (hopt : IsOptimalValue .minLargest k (items.map v) opt) {ρ : Rat} (hρ : 61 / 50 ≤ ρ) :
+    FfdFits v k (sortDesc v items) ρ opt := by
+  refine ffdFits_of_no_irred v hk hopt (p := 61) (q := 50) (by decide) (by decide) (by norm_num; exact hρ) ?_
+  intro T B hTB hB k' hk' LL a hi hcap
+  rcases Nat.lt_or_ge k' 7 with h6 | h7
+  · exact tight_small_k hTB hB (by omega) (irred_tight hTB hi).toTight
+  · rcases Nat.lt_or_ge k' 9 with h8 | h9
+    · exact irred_seven_eight_false (by omega) hTB hB hi hcap
+    · have hc : k' = 9 ∨ k' = 10 ∨ k' = 11 := by omega
+      rcases hc with rfl | rfl | rfl
+      · exact irred_nine_false hTB hB hi hcap
+      · exact irred_ten_false hTB hB hi hcap
+      · exact irred_eleven_false hTB hB hi hcap
+
+/-- **Multifit, `61/50 + 2^−it`, for at most eleven bins** (unconditional in the input). -/
+theorem multifit_ratio_122_k11 {k : Nat} {items : List α} {it : Nat} {b : Bins α} (hk : 0 < k)
+    (hk11 : k ≤ 11) {opt : Int} (hopt : IsOptimalValue .minLargest k (items.map v) opt)
+    (h : multifit v k items it = .ok b) :
+    ((maxL b.sums : Nat) : Rat) ≤ (61 / 50 + 1 / 2 ^ it) * opt :=
+  multifit_ratio_of_ffdFits v hk hopt (by norm_num) (ffdFits_122_k11 v hk hk11 hopt (le_refl _)) h
+
 /-- **Multifit, `11/9 + 2^−it`, for at most ten bins.** -/
 theorem multifit_ratio_11_9_k10 {k : Nat} {items : List α} {it : Nat} {b : Bins α} (hk : 0 < k)
     (hk10 : k ≤ 10) {opt : Int} (hopt : IsOptimalValue .minLargest k (items.map v) opt)
@@ -1613,7 +2014,7 @@ example : ∃ b, multifit id 2 [3, 3, 2, 2, 2] 10 = .ok b ∧
     ((maxL b.sums : Nat) : Rat) ≤ (61 / 50 + 1 / 2 ^ 10) * ((6 : Int) : Rat) := by
   obtain ⟨b, h, _⟩ := Part.multifit_perm (v := id) (k := 2) (items := [3, 3, 2, 2, 2]) (it := 10)
     (by decide) (by decide)
-  exact ⟨b, h, multifit_ratio_122_k10 id (by decide) (by decide) opt_33222 h⟩
+  exact ⟨b, h, multifit_ratio_122_k11 id (by decide) (by decide) opt_33222 h⟩
 
 example : ∃ b, multifit id 2 [3, 3, 2, 2, 2] 10 = .ok b ∧
     ((maxL b.sums : Nat) : Rat) ≤ (11 / 9 + 1 / 2 ^ 10) * ((6 : Int) : Rat) ∧
@@ -1638,12 +2039,9 @@ end Prtpy.MultiFit122C
 #print axioms Prtpy.MultiFit122C.multifit_ratio_122_k10
 #print axioms Prtpy.MultiFit122C.multifit_ratio_11_9_k11
 #print axioms Prtpy.MultiFit122C.multifit_ratio_16_13_k16
+#print axioms Prtpy.MultiFit122C.irred_eleven_false
+#print axioms Prtpy.MultiFit122C.multifit_ratio_122_k11
 
-observed output (each of the ten):
+observed output (each of the twelve):
 'Prtpy.MultiFit122C.<name>' depends on axioms: [propext, Classical.choice, Quot.sound]
 -/
-
-#print axioms Prtpy.MultiFit122C.irred_ten_false
-#print axioms Prtpy.MultiFit122C.multifit_ratio_122_k10
-#print axioms Prtpy.MultiFit122C.multifit_ratio_11_9_k11
-#print axioms Prtpy.MultiFit122C.multifit_ratio_16_13_k16
